@@ -579,7 +579,7 @@ def run(ctx: Ctx):
 
 def search(ctx: Ctx, seeds):
     """failing-input search on the real code when a tie broke: the oracles alone with the full budget"""
-    ctx.tier = "thorough"
+    ctx.tier = "quick"   # bounded: quick enumeration without thinning (~1 min)
     oracle_calendar(ctx, budget_scale=10)
     oracle_arith(ctx, gen_cmp_lines(ctx))
     oracle_spans(ctx, gen_span_lines(ctx) + [c for c in seeds if isinstance(c, str) and c.startswith("span")])
